@@ -517,6 +517,23 @@ def _clause_at(asm, span):
     return None
 
 
+def _all_known(failures):
+    """True iff every failed obligation is listed (obligation + site) in the committed known_findings.json."""
+    if not failures:
+        return True
+    try:
+        with open(os.path.join(os.path.dirname(os.path.dirname(os.path.abspath(__file__))), "known_findings.json")) as f:
+            kf = json.load(f).get("findings", [])
+    except (OSError, ValueError):
+        return False
+    for fl in failures:
+        if fl.get("in_prelude"):
+            return False
+        if not any(k["obligation"] == fl.get("obligation") and (k.get("site_key") is None or k["site_key"] == fl.get("site_key", "")) for k in kf):
+            return False
+    return True
+
+
 def verify_unit(unit, repo, workdir, keep=False):
     """Full run of one unit: main file + canary file.  Returns a result dict."""
     out = {"unit": unit["name"], "undecided": [], "failures": [], "functions": [], "verified": 0, "errors": 0}
@@ -538,8 +555,8 @@ def verify_unit(unit, repo, workdir, keep=False):
         try:
             with open(cpath) as f:
                 cached = json.load(f)
-            if cached.get("failures") or cached.get("undecided"):
-                raise ValueError("only clean verdicts are reused")
+            if cached.get("undecided") or not _all_known(cached.get("failures")):
+                raise ValueError("only verdicts that are clean, or whose every failure is a listed known finding, are reused")
             cached["cache_hit"] = True
             cached["verify_wall_s"] = cached.get("verify_wall_s", cached.get("wall_s"))
             cached["wall_s"] = time.time() - t0
@@ -611,7 +628,8 @@ def verify_unit(unit, repo, workdir, keep=False):
     out["verify_wall_s"] = out["wall_s"]
     # only clean verdicts are cached: a failed or undecided run is always re-verified from scratch, so a verdict that was
     # produced while the unit was being edited (or under resource pressure) can never be replayed later
-    if not out["undecided"] and not out["failures"]:
+    # (a run whose ONLY failures are the committed known findings counts as clean for this purpose: its verdict is the expected one)
+    if not out["undecided"] and _all_known(out["failures"]):
         try:
             os.makedirs(cdir, exist_ok=True)
             with open(cpath + ".tmp", "w") as f:
